@@ -34,6 +34,10 @@ var attrTemplates = []string{
 	"- <div>\n \t" + hA + "\n",              // 17 partially consumed tab inside an HTML block in a list item
 	">\t<div>\n>\t" + hA,                    // 18 the same in a block quote
 	"```" + hA + "&#32;" + hA + "\nx\n```",    // 19 info string with a character reference
+	"[a](%4" + hA + hA + ")",                  // 20 percent escape followed by a free byte in a destination
+	"[a](b " + hA + hA + ")",                  // 21 two-byte title incl. the empty titles "" '' ()
+	"![&quot;" + hA + "&" + hA + "t;](x)",      // 22 character references in an image description
+	"<http://a/%2" + hA + hA + ">",            // 23 percent escape in an autolink
 }
 
 func c10Input(kind, a int) []byte {
@@ -72,4 +76,32 @@ func H_C10(ka, fi int) {
 	}
 	vunfreeze()
 	vdigest(d)
+}
+
+// H_C10_join(n, _): the block-join rule on a long document - n paragraphs (the letter
+// of each chosen from one symbolic byte) so that the rendered output crosses the
+// usual buffer sizes (4 KiB, 8 KiB, ...): Render(blocks) equals the AppendBlock
+// outputs joined by blank lines, byte for byte.
+func H_C10_join(n, _ int) {
+	c := nondetByte()
+	assume(isL(c))
+	var doc []byte
+	for i := 0; i < n; i++ {
+		doc = append(doc, "paragraph *number* `x` "...)
+		doc = append(doc, c)
+		doc = append(doc, "\nwith two lines\n\n"...)
+	}
+	blocks, refs := Parse(doc)
+	r := &HTMLRenderer{ReferenceMap: refs}
+	got := renderWith(r, blocks)
+	var want []byte
+	for i, b := range blocks {
+		if i > 0 {
+			want = append(want, "\n\n"...)
+		}
+		want = r.AppendBlock(want, b)
+	}
+	check(len(blocks) == n, "C10.join.blocks")
+	check(vsame(got, want), "C10.join")
+	vdigest(got[:64])
 }
